@@ -231,6 +231,20 @@ theorem inv_popFail {s : State} (hI : Inv s) {i : Nat} {th : Thread}
     · exact hcr
     · exact locals_update hlocs hth (Nat.le_refl _) (Nat.le_refl _) (Or.inl ⟨rfl, rfl⟩)
         (by simp only [PcOk])
+  split
+  · have hP := cP { th with pc := .popTick, ticks := th.ticks - 1 }
+    have hS := cS { th with pc := .popTick, ticks := th.ticks - 1 }
+    have hO := cO { th with pc := .popTick, ticks := th.ticks - 1 }
+    simp only [hpc.1, hpc.2.1, hpc.2.2] at hP hS hO
+    simp only [isPushPost, isPushStore, isPopPost, Bool.toNat_false, Nat.add_zero] at hP hS hO
+    refine ⟨?_, ?_, ?_, ?_, ?_, ?_⟩ <;> simp only []
+    · exact hht
+    · omega
+    · omega
+    · omega
+    · exact hcr
+    · exact locals_update hlocs hth (Nat.le_refl _) (Nat.le_refl _) (Or.inl ⟨rfl, rfl⟩)
+        (by simp only [PcOk])
   · have hP := cP th.finish
     have hS := cS th.finish
     have hO := cO th.finish
@@ -455,6 +469,17 @@ theorem inv_step {s : State} (hI : Inv s) (i : Nat) : Inv (step .addThenStore s 
       · exact locals_update hlocs hth (Nat.le_refl _) (Nat.le_refl _) (Or.inl ⟨rfl, rfl⟩)
           (finish_ok _ _ _ _)
     | popYield =>
+      dsimp only
+      counts { th with pc := .popLoadHead }
+      refine ⟨?_, ?_, ?_, ?_, ?_, ?_⟩ <;> simp only [State.setPc]
+      · exact hht
+      · omega
+      · omega
+      · omega
+      · exact hcr
+      · exact locals_update hlocs hth (Nat.le_refl _) (Nat.le_refl _) (Or.inl ⟨rfl, rfl⟩)
+          (by simp only [PcOk])
+    | popTick =>
       dsimp only
       counts { th with pc := .popLoadHead }
       refine ⟨?_, ?_, ?_, ?_, ?_, ?_⟩ <;> simp only [State.setPc]
